@@ -310,6 +310,8 @@ def run(model, tier="quick"):
     mutating, _nf = cell_mutation_rule(model, res)
     res.ob("R-INPUT", f"shared market data: no in-place mutation reaches an object stored in a frame cell "
                       f"(parameter-mutating functions: {sorted(mutating)})", "demeter/", ok=_nf == 0)
+    from ..rules.alias import loop_sharing_rule
+    res.units["objects_built_before_a_loop_and_passed_inside"] = loop_sharing_rule(model, res, scope=() if res.prop == "C19" else ("demeter/core/", "demeter/broker/"))
     from ..rules.fresh import fresh_rule
     if "R-FRESH" not in res.rules:
         res.rules.append("R-FRESH")
